@@ -229,6 +229,9 @@ func (c *Ctx) funcxRun() map[string]*simpleVerdict {
 					return ps
 				})
 				where := fmt.Sprintf("%s with %d argument(s)", n, cnt)
+				if cnt == 1 {
+					noteSample("FUNC.model/arity", where)
+				}
 				values, errs := 0, 0
 				for _, oc := range outs {
 					switch oc.kind {
